@@ -407,6 +407,49 @@ func (g *gen) claimCase(n, thr, quorum int) *input {
 	return in
 }
 
+var wrongVMuts = []string{"vflip", "v01", "v29"}
+
+// supporter-wrong-v stream: a would-be-submitted result where ONE supporter sent the genuine
+// R || S of its operator key with another recovery byte.  There is one supporter more than the
+// quorum, so the result is submitted whether the receiving member keeps or drops that signature.
+func (g *gen) wrongVDkg(n int, mut string, via bool) *input {
+	r := g.r
+	thr := n/2 + 1
+	quorum := n - 2
+	if quorum < thr {
+		quorum = thr
+	}
+	nm := r.Range(0, n-quorum-1)
+	all := rangeU8(1, n)
+	misb := subset(r, all, nm)
+	isM := map[uint8]bool{}
+	for _, m := range misb {
+		isM[m] = true
+	}
+	var oper []uint8
+	for _, i := range all {
+		if !isM[i] {
+			oper = append(oper, i)
+		}
+	}
+	in := g.dkgCase(n, thr, quorum, quorum, misb, oper, via)
+	in.Filter = true
+	in.Signers[r.Intn(len(in.Signers))].Mut = mut
+	return in
+}
+
+func (g *gen) wrongVClaim(n int, mut string) *input {
+	thr := n/2 + 1
+	in := g.claimCase(n, thr, thr)
+	in.Signers = nil
+	for _, s := range shuffled8(g.r, rangeU8(1, n)) {
+		in.Signers = append(in.Signers, signer{Index: s})
+	}
+	in.Filter = true
+	in.Signers[g.r.Intn(len(in.Signers))].Mut = mut
+	return in
+}
+
 func (g *gen) abiCase() *input {
 	r := g.r
 	in := &input{Kind: "abi"}
@@ -496,6 +539,12 @@ func main() {
 		c = g.claimCase(5, 3, 3)
 		c.RawInact, c.Heartbeat, c.Nonce = []uint8{3}, false, "0"
 		run(c, em, "corpus-claim-nonce-zero")
+		// one supporter sends its genuine R || S with another recovery byte (witnesses of the
+		// defect fixed in pkg/chain/ethereum/signer.go: the client used to accept it)
+		for _, m := range wrongVMuts {
+			run(g.wrongVDkg(5, m, true), em, "corpus-supporter-wrong-v-dkg-"+m)
+			run(g.wrongVClaim(4, m), em, "corpus-supporter-wrong-v-claim-"+m)
+		}
 	}
 
 	// --- exhaustive small scope: groups of 1..5, every misbehaved subset, every non-empty set of
@@ -578,6 +627,19 @@ func main() {
 				quorum = real.GoHonest
 			}
 			run(g.claimCase(sz, thr, quorum), em, fmt.Sprintf("claim-%d", k))
+		}
+	}
+
+	// --- a supporter with a wrong recovery byte
+	{
+		g := mk("wrong-v")
+		for k, n := 0, o.Count(18, 120); k < n; k++ {
+			m := wrongVMuts[k%3]
+			if k%2 == 0 {
+				run(g.wrongVDkg(g.r.Range(4, 14), m, g.r.Bool()), em, fmt.Sprintf("wrongv-dkg-%d", k))
+			} else {
+				run(g.wrongVClaim(g.r.Range(3, 12), m), em, fmt.Sprintf("wrongv-claim-%d", k))
+			}
 		}
 	}
 
